@@ -45,6 +45,7 @@ def closer(step: int | None, at: float | None, then: tuple = ()):
 
 def sessions(tier: str, seed: int, kinds=vloop.CLIENTS):
     logs, meta = [], []
+    c13.CONF.clear()
     shapes = [("accept", dict(refuse=0)), ("refuse2", dict(refuse=2)), ("pending", dict(refuse=0, pending=2.0)),
               ("refuse1-pending", dict(refuse=1, pending=1.0))]
     for kind in kinds:
@@ -57,10 +58,12 @@ def sessions(tier: str, seed: int, kinds=vloop.CLIENTS):
                 if tier == "selftest":
                     use = use[::3]
                 for k in use:
-                    then = ("connect", "send") if k % 2 else ("send-now", "connect")
-                    log, _ = cf.run(kind, cf.Plan(**kw), closer(k, None, then), status_cb=cb, t_end=40.0)
+                    then = ("connect",) if k % 3 == 0 else ("connect", "send") if k % 2 else ("send-now", "connect")
+                    log, raw2 = cf.run(kind, cf.Plan(**kw), closer(k, None, then), status_cb=cb, t_end=40.0)
                     logs.append(log)
                     meta.append((kind, "close", sname, cb, f"step{k}"))
+                    if then == ("connect",) and cb != "raise" and "pending" not in sname:
+                        c13.CONF.append((cb, cf.conformance_log(raw2), f"{kind} close at step {k} shape={sname} callback={cb}"))
             # close at fine-grained times inside the in-flight / back-off / callback windows
             for t in (0.0, 0.001, 0.25, 0.499, 0.5, 0.75, 1.0, 1.499, 1.5, 1.9, 2.0, 2.001, 2.1, 2.3, 3.0):
                 log, _ = cf.run(kind, cf.Plan(**kw), closer(None, t, ("send-now", "connect")), status_cb="slow", t_end=40.0)
@@ -97,6 +100,7 @@ def bind(chk: Check, tier: str, seed: int):
     wd = workdir("C14")
     logs, meta = sessions(tier, seed)
     c13.judge(chk, wd, logs, meta, "C14", "c14")
+    c13.conformance(chk, wd, c13.CONF if tier != "selftest" else [], "c14")
     closed = sum(1 for lg in logs if any(e["e"] == "RetClose" for e in lg))
     inflight = sum(1 for lg in logs if any(e["e"] == "OpenResult" and e["r"] == "accept" and
                                           any(x["e"] == "CallClose" and x["t"] <= e["t"] for x in lg) for e in lg))
